@@ -43,7 +43,7 @@ EXACT = {2: (0.625, 0.0), 3: (0.625, 0.0, 0.0), 4: (0.625, 0.0, 0.0, 1.625)}
 
 def bounds(tier):
     return {"tier": tier, "system_pairs": "all 4 / 36 / 144", "tolerance_pairs": TOLS, "backends": ["OBJ", "NP", "AKA", "AKR"], "mixed_pairings_ordered": [list(m) for m in MIXED],
-            "pair_classes": ["identical", "one component (each in turn)", "one component doubled (each in turn; decides which operand scales rtol)", "two components", "all components", "nearly equal 1e-12/1e-7/1e-3", "exact across systems", "rounded across systems", "different across systems"]}
+            "pair_classes": ["degenerate stored tuples (zero transverse part / zero length with arbitrary stored angles)", "identical", "one component (each in turn)", "one component doubled (each in turn; decides which operand scales rtol)", "two components", "all components", "nearly equal 1e-12/1e-7/1e-3", "exact across systems", "rounded across systems", "different across systems"]}
 
 
 def shards(tier):
@@ -109,6 +109,25 @@ def pairs_for(dim, sa, sb, tier):
             s2 = S.stored(w, sb)
             if s2 is not None:
                 out.append(("different-across", s0, tuple(float(x) for x in s2)))
+    # degenerate stored tuples (not obtained from a geometric vector): zero transverse part with arbitrary stored angles, and the
+    # all-zero lengths with non-zero angles.  They are legitimate stored values, and ==, != are defined on stored coordinates.
+    def raw(system, az, lon, tmp):
+        t = list(az)
+        if len(system) > 1:
+            t.append(lon[system[1]])
+        if len(system) > 2:
+            t.append(tmp[system[2]])
+        return tuple(float(x) for x in t)
+
+    if dim >= 3:
+        la, lb = {"z": 1.25, "theta": 0.875, "eta": 1.0}, {"z": -0.75, "theta": 2.0, "eta": -0.5}
+        ta, tb = {"t": 2.5, "tau": 1.5}, {"t": 2.5, "tau": 1.5}
+        za, zb = ((0.0, 0.0) if sa[0] == "xy" else (0.0, 0.3)), ((0.0, 0.0) if sb[0] == "xy" else (0.0, -1.1))
+        out.append(("degenerate-axis", raw(sa, za, la, ta), raw(sb, zb, lb, tb)))
+        out.append(("degenerate-axis-same-lon", raw(sa, za, la, ta), raw(sb, zb, la, ta)))
+        zero_l = {"z": 0.0, "theta": 0.875, "eta": 1.0}
+        zero_l2 = {"z": 0.0, "theta": 2.0, "eta": -0.5}
+        out.append(("degenerate-zero", raw(sa, za, zero_l, {"t": 0.0, "tau": 0.0}), raw(sb, zb, zero_l2, {"t": 0.0, "tau": 0.0})))
     e = Vec("exact", EXACT[dim], {"exact"})
     ea, eb = S.stored(e, sa), S.stored(e, sb)
     if ea is not None and eb is not None and sa != sb:
